@@ -337,6 +337,13 @@ impl<I: Iterator> Iterator for Loose<I> {
     fn next(&mut self) -> Option<I::Item> { self.0.next() }
     fn size_hint(&self) -> (usize, Option<usize>) { let (_, hi) = self.0.size_hint(); (0, hi.map(|h| h + self.1)) }
 }
+/// an iterator with an honest but vague size_hint: lower bound below the real length, no upper bound
+struct Vague<I>(I, usize);
+impl<I: Iterator> Iterator for Vague<I> {
+    type Item = I::Item;
+    fn next(&mut self) -> Option<I::Item> { self.0.next() }
+    fn size_hint(&self) -> (usize, Option<usize>) { (self.0.size_hint().0.saturating_sub(self.1), None) }
+}
 static DONE_SEQ: AtomicUsize = AtomicUsize::new(0);
 
 // ------------------------------------------------------------------------------------------------ per-history guard
@@ -487,12 +494,22 @@ fn collections_history(prop: &'static str, rng: &mut Rng, it: usize, skip_refuse
             }
             pushes += collected;
             hist.push(format!("collect({collected} futures through .filter(): inexact size hint)"));
-            let it = Loose(futs.into_iter(), collected % 3);
-            match kind {
-                0 => { cap = collected; Coll::Fub(it.collect()) }
-                1 => Coll::Fu(it.collect()),
-                2 => { cap = collected; Coll::Fob(it.collect()) }
-                _ => Coll::Fo(it.collect()),
+            if collected % 2 == 0 {
+                let it = Loose(futs.into_iter(), collected % 3);
+                match kind {
+                    0 => { cap = collected; Coll::Fub(it.collect()) }
+                    1 => Coll::Fu(it.collect()),
+                    2 => { cap = collected; Coll::Fob(it.collect()) }
+                    _ => Coll::Fo(it.collect()),
+                }
+            } else {
+                let it = Vague(futs.into_iter(), 1);
+                match kind {
+                    0 => { cap = collected; Coll::Fub(it.collect()) }
+                    1 => Coll::Fu(it.collect()),
+                    2 => { cap = collected; Coll::Fob(it.collect()) }
+                    _ => Coll::Fo(it.collect()),
+                }
             }
         } else {
             match kind {
@@ -1582,8 +1599,8 @@ fn run_merge(prop: &'static str, seed: u64, iters: usize) {
         for k in (nsrc - late)..nsrc { pushed[k] = false; }
         if late > 0 { hist.push(format!("sources {}..{nsrc} are pushed later", nsrc - late)); }
         let mut m = if unbounded {
-            if grouped || rng.below(2) == 0 { let mut mu = MergeUnbounded::new(); for s in srcs { mu.push(s); } M::U(mu) } else { hist.push("(built by collect())".into()); M::U(srcs.into_iter().collect()) }
-        } else { M::B(srcs.into_iter().collect()) };
+            if grouped || rng.below(2) == 0 { let mut mu = MergeUnbounded::new(); for s in srcs { mu.push(s); } M::U(mu) } else { hist.push("(built by collect())".into()); if rng.below(2) == 0 { M::U(Vague(srcs.into_iter(), 1).collect()) } else { M::U(srcs.into_iter().collect()) } }
+        } else if rng.below(2) == 0 { hist.push("(built by collect() over an iterator whose size_hint is (len - 1, None))".into()); M::B(Vague(srcs.into_iter(), 1).collect()) } else { M::B(srcs.into_iter().collect()) };
         let mut wakes = vec![0usize; nsrc];
         let tw = Arc::new(CountWaker(AtomicUsize::new(0)));
         let waker = Waker::from(tw.clone());
